@@ -8,6 +8,7 @@ import os
 from . import core
 from . import rgen
 from .props_r import RProp, has_nested
+from .props_sched import upgrade
 
 
 def flattenable(cfg):
@@ -213,3 +214,4 @@ PROPS = {
                     "Non-trivial = nesting depth >= 2.",
                nontrivial=has_nested, max_jobs=14),
 }
+upgrade(PROPS["C10"])
